@@ -123,6 +123,12 @@ impl<'i, 's> LexWith<'i, &FilterParser<'s>> for QuantifierArgExpr {
     fn lex_with(input: &'i str, parser: &FilterParser<'s>) -> LexResult<'i, Self> {
         let (arg, rest) = FunctionCallArgExpr::lex_with(input, parser)?;
         let arg = match arg {
+            // An index expression using `[*]` cannot be reduced directly: its
+            // static type is the element type, not the type of the mapped
+            // value (`any(a[*])` has to be written `any(a)`).
+            FunctionCallArgExpr::IndexExpr(index_expr) if index_expr.map_each_count() > 0 => {
+                return Err((LexErrorKind::InvalidMapEachAccess, span(input, rest)));
+            }
             FunctionCallArgExpr::IndexExpr(index_expr) => Self::IndexExpr(index_expr),
             FunctionCallArgExpr::Logical(logical_expr) => Self::Logical(logical_expr),
             FunctionCallArgExpr::Literal(literal) => {
